@@ -298,7 +298,7 @@ Definition rrd (r : lrr) (a : arr) : Prop :=
 
 Lemma rr_decode b lo c h L r a : closed b lo c h L -> sdec b c L -> rr_at b L r -> rrd r a ->
   arr_wf a -> lr_end r <= length b ->
-  exists d, rr_rel xparts a d /\ dr_pos d = nc_pos (lr_owner r) /\
+  exists d, rr_rel xparts a d /\ (dr_pos d = nc_pos (lr_owner r) /\ Forall2 lpart_rel (lr_parts r) (dr_parts d)) /\
     forall n, dec_rrs (S n) b (nc_pos (lr_owner r)) =
               match dec_rrs n b (lr_end r) with Some (rs, e') => Some (d :: rs, e') | None => None end.
 Proof.
@@ -329,7 +329,7 @@ Proof.
   assert (Hpw : Forall part_wf (lr_parts r)).
   { eapply parts_wf_of; [exact D6|]. apply rd_parts_wf. exact W7. }
   destruct (parts_decode b lo c h L Hc Hsd _ _ _ _ D8 Hp Hpw He) as [dps [Ep Fp]].
-  exists (mkDRR n' (nc_pos (lr_owner r)) (lr_ty r) (lr_cl r) (lr_ttl r) dps). split; [|split; [reflexivity|]].
+  exists (mkDRR n' (nc_pos (lr_owner r)) (lr_ty r) (lr_cl r) (lr_ttl r) dps). split; [|split; [split; [reflexivity|exact Fp]|]].
   - unfold rr_rel. simpl. rewrite <- D1, <- D2. split; [exact Hr|]. repeat split; auto.
     unfold xparts. rewrite <- D6. apply parts_rel_of; auto. rewrite D2. exact D7.
   - intros n. cbn [dec_rrs]. unfold dec_cname. rewrite E.
@@ -342,15 +342,16 @@ Qed.
 
 Lemma rrs_decode b lo c h L : closed b lo c h L -> sdec b c L ->
   forall rs al pos e, rrs_at b L rs pos e -> Forall2 rrd rs al -> Forall arr_wf al -> e <= length b ->
-  exists ds, dec_rrs (length rs) b pos = Some (ds, e) /\ Forall2 (rr_rel xparts) al ds.
+  exists ds, dec_rrs (length rs) b pos = Some (ds, e) /\ Forall2 (rr_rel xparts) al ds /\
+             Forall2 (fun r d => dr_pos d = nc_pos (lr_owner r) /\ Forall2 lpart_rel (lr_parts r) (dr_parts d)) rs ds.
 Proof.
   intros Hc Hsd. induction rs as [|r rest IH]; intros al pos e Hat Hd Hw He.
   - inversion Hd; subst. simpl in Hat. subst. exists []. split; auto.
   - inversion Hd as [|? a ? al' Hda Hd']; subst. inversion Hw; subst.
     simpl in Hat. destruct Hat as [Hp [Hr [Hle Hat]]].
-    destruct (rr_decode b lo c h L r a Hc Hsd Hr Hda ltac:(auto) ltac:(lia)) as [d [Rd [_ Ed]]].
-    destruct (IH al' (lr_end r) e Hat Hd' ltac:(auto) He) as [ds [E F]].
-    exists (d :: ds). split; [|constructor; auto].
+    destruct (rr_decode b lo c h L r a Hc Hsd Hr Hda ltac:(auto) ltac:(lia)) as [d [Rd [Lk Ed]]].
+    destruct (IH al' (lr_end r) e Hat Hd' ltac:(auto) He) as [ds [E [F Lks]]].
+    exists (d :: ds). split; [|split; constructor; auto].
     change (length (r :: rest)) with (S (length rest)). rewrite <- Hp, Ed, E. reflexivity.
 Qed.
 
@@ -361,7 +362,8 @@ Lemma qs_decode b lo c h L : closed b lo c h L -> sdec b c L ->
   Forall2 (fun q a => nc_name (lq_name q) = aq_name a /\ nc_cp (lq_name q) = aq_exact a /\
                       lq_ty q = aq_ty a /\ lq_cl q = aq_cl a) qs al ->
   Forall aq_wf al -> e <= length b ->
-  exists ds, dec_questions (length qs) b pos = Some (ds, e) /\ Forall2 q_rel al ds.
+  exists ds, dec_questions (length qs) b pos = Some (ds, e) /\ Forall2 q_rel al ds /\
+             Forall2 (fun q d => dq_pos d = nc_pos (lq_name q)) qs ds.
 Proof.
   intros Hc Hsd. induction qs as [|q rest IH]; intros al pos e Hat Hd Hw He.
   - inversion Hd; subst. simpl in Hat. subst. exists []. split; auto.
@@ -379,11 +381,201 @@ Proof.
     { apply get16_be16; [|rewrite D4; auto].
       rewrite (slice_sub b p (p + 4) (p + 2) (p + 2 + 2) _ Hf) by lia.
       replace (p + 2 - p) with 2 by lia. replace (p + 2 + 2 - p) with 4 by lia. reflexivity. }
-    destruct (IH al' (p + 4) e Hat Hd' Hw' He) as [ds [E2 F]].
-    exists (mkDQ n' (nc_pos (lq_name q)) (lq_ty q) (lq_cl q) :: ds). split.
+    destruct (IH al' (p + 4) e Hat Hd' Hw' He) as [ds [E2 [F Lks]]].
+    exists (mkDQ n' (nc_pos (lq_name q)) (lq_ty q) (lq_cl q) :: ds). split; [|split; [|constructor; auto]].
     + change (length (q :: rest)) with (S (length rest)). cbn [dec_questions]. unfold dec_cname.
       rewrite <- Hp, E.
       replace (nc_pos (lq_name q) + (p - nc_pos (lq_name q))) with p by lia.
       rewrite F1, F2, E2. reflexivity.
     + constructor; auto. unfold q_rel. simpl. rewrite <- D1, <- D2. auto.
+Qed.
+
+(* ---------------------------------------------------------------- the pointer-rule checker of the specification *)
+
+Lemma chunk_scan_labels b : forall ls fuel i acc, Forall wf_label ls ->
+  slice b i (i + length (nm_lwire ls)) = nm_lwire ls -> i + length (nm_lwire ls) <= length b ->
+  length ls <= fuel ->
+  chunk_scan fuel b i acc = chunk_scan (fuel - length ls) b (i + length (nm_lwire ls)) (acc ++ lstarts i ls).
+Proof.
+  induction ls as [|l r IH]; intros fuel i acc Hwf Hs Hlen Hf.
+  - simpl. rewrite Nat.add_0_r, Nat.sub_0_r, app_nil_r. reflexivity.
+  - inversion Hwf as [|? ? [Hl1 Hl63] Hwf']; subst.
+    rewrite nm_lwire_cons in *. simpl length in *. rewrite app_length in *.
+    destruct (lwire_tail b i l r Hl63 Hs Hlen) as [Hnth [Hsl Hsr]].
+    destruct fuel as [|f]; [lia|]. cbn [chunk_scan]. rewrite Hnth.
+    destruct (N.of_nat (length l) =? 0)%N eqn:E0; [apply N.eqb_eq in E0; lia|].
+    destruct (N.of_nat (length l) <=? 63)%N eqn:E1; [|apply N.leb_gt in E1; lia].
+    rewrite Nat2N.id. rewrite (IH f (i + 1 + length l) (acc ++ [i])); auto; try lia.
+    simpl. rewrite <- app_assoc. simpl.
+    replace (i + 1 + length l + length (nm_lwire r)) with (i + S (length l + length (nm_lwire r))) by lia.
+    reflexivity.
+Qed.
+
+Definition shape_term (pos : nat) (n : wname) (sh : shape) : option (nat * nat) :=
+  match sh with None => None | Some (k, pp) => Some (pos + length (nm_lwire (firstn k n)), pp) end.
+
+Lemma chunk_scan_shape cp n b L pos e sh acc : shape_at cp n b L pos e sh -> wf_name n -> e <= length b ->
+  pos <= e -> chunk_scan 130 b pos acc = Some (acc ++ own_starts pos n sh, shape_term pos n sh).
+Proof.
+  intros Hsh [Hwf Hn127] He Hpe.
+  assert (Hl : length (slice b pos e) = e - pos) by (apply slice_length; lia).
+  destruct sh as [[k pp]|]; simpl in Hsh; cbn [own_starts shape_term].
+  - destruct Hsh as [Hk [Hs [_ [_ [_ [Hpm _]]]]]].
+    rewrite Hs, app_length in Hl. simpl in Hl.
+    destruct (slice_app_l b pos (pos + length (nm_lwire (firstn k n))) e _ _ Hs eq_refl ltac:(lia) He) as [S1 S2].
+    destruct (ptr_word_bytes pp Hpm) as [hi [lo' [Eb [Ehi Et]]]].
+    assert (Hhi : (hi < 256)%N) by (unfold be16 in Eb; inversion Eb; apply N.mod_lt; lia).
+    rewrite Eb in S2. apply slice_head in S2 as [Z1 [S3 _]]. apply slice_head in S3 as [Z2 _].
+    destruct (spec_target hi lo' Ehi Hhi) as [H192 Etspec].
+    assert (Hwk : Forall wf_label (firstn k n)).
+    { rewrite Forall_forall in *. intros x Hx. apply Hwf. eapply In_firstn; eauto. }
+    assert (Hlk : length (firstn k n) <= 127) by (rewrite firstn_length; lia).
+    rewrite (chunk_scan_labels b (firstn k n) 130 pos acc Hwk S1 ltac:(lia) ltac:(lia)).
+    destruct (130 - length (firstn k n)) as [|f] eqn:Ef; [lia|]. cbn [chunk_scan]. rewrite Z1.
+    destruct (hi =? 0)%N eqn:E0; [apply N.eqb_eq in E0; lia|].
+    destruct (hi <=? 63)%N eqn:E1; [apply N.leb_le in E1; lia|].
+    destruct (192 <=? hi)%N eqn:E2; [|apply N.leb_gt in E2; lia].
+    replace (pos + length (nm_lwire (firstn k n)) + 1) with (S (pos + length (nm_lwire (firstn k n)))) by lia.
+    rewrite Z2, Etspec, Et. reflexivity.
+  - rewrite Hsh, nm_wire_length in Hl. unfold nm_wire in Hsh.
+    destruct (slice_app_l b pos (pos + length (nm_lwire n)) e _ _ Hsh eq_refl ltac:(lia) He) as [S1 S2].
+    apply slice_head in S2 as [Hz _].
+    rewrite (chunk_scan_labels b n 130 pos acc Hwf S1 ltac:(lia) ltac:(lia)).
+    destruct (130 - length n) as [|f] eqn:Ef; [lia|]. cbn [chunk_scan]. rewrite Hz.
+    change (0 =? 0)%N with true. cbv iota. rewrite <- app_assoc. reflexivity.
+Qed.
+
+Lemma mem_nat_in x l : In x l -> mem_nat x l = true.
+Proof. intros H. unfold mem_nat. apply existsb_exists. exists x. split; auto. apply Nat.eqb_refl. Qed.
+
+(* a chunk passes the checker when its pointer target is among the starts collected so far *)
+Lemma check_name_ok b L ch (nocomp : bool) starts : chunk_ok b L ch -> wf_name (nc_name ch) ->
+  nc_end ch <= length b -> (nocomp = true -> nc_sh ch = None) ->
+  (forall s, L s -> s < nc_pos ch -> In s starts) ->
+  check_name b nocomp starts (nc_pos ch) = Ok (starts ++ chunk_starts ch).
+Proof.
+  intros [Hlt Hsh] Hwf He Hno Hst. unfold check_name.
+  rewrite (chunk_scan_shape _ _ _ _ _ _ _ [] Hsh Hwf He ltac:(lia)). cbn [app].
+  unfold chunk_starts. destruct (nc_sh ch) as [[k pp]|] eqn:Esh; cbn [shape_term]; auto.
+  destruct nocomp; [specialize (Hno eq_refl); discriminate|].
+  simpl in Hsh. destruct Hsh as [_ [_ [HL [Hpp _]]]].
+  destruct (pp <? nc_pos ch) eqn:E1; [|apply Nat.ltb_ge in E1; lia].
+  rewrite (mem_nat_in pp starts (Hst pp HL Hpp)). reflexivity.
+Qed.
+
+Lemma check_parts_ok b L (P R : list nat) : forall ps dps pos e, parts_at b L ps pos e -> e <= length b ->
+  Forall2 lpart_rel ps dps -> Forall part_wf ps ->
+  (forall s, L s -> In s (P ++ parts_starts ps ++ R)) -> (forall s, In s P -> s < pos) ->
+  (forall s, In s R -> e <= s) ->
+  check_parts b false P dps = Ok (P ++ parts_starts ps).
+Proof.
+  intros ps. revert P. induction ps as [|[ch comp|p d] r IH]; intros P dps pos e Hat He Hrel Hwf HL HP HR.
+  - inversion Hrel; subst. simpl. rewrite app_nil_r. reflexivity.
+  - inversion Hrel as [|? dp ? dps' Hr Hrel']; subst. inversion Hwf as [|? ? HW Hwf']; subst. destruct HW as [W1 W2].
+    destruct dp as [n' pos' c|]; simpl in Hr; [|contradiction]. destruct Hr as [_ [-> ->]].
+    simpl in Hat. destruct Hat as [Hp [Hch [Hn [Hle Hat]]]]. pose proof (proj1 Hch) as Hlt.
+    pose proof (parts_le _ _ _ _ _ Hat) as Hpe.
+    cbn [check_parts]. simpl orb.
+    rewrite (check_name_ok b L ch (negb comp) P Hch W1 ltac:(lia)).
+    + cbn [bind]. simpl parts_starts. rewrite app_assoc.
+      apply (IH (P ++ chunk_starts ch) dps' (nc_end ch) e); auto.
+      * intros s Hs. specialize (HL s Hs). simpl in HL. rewrite <- !app_assoc. rewrite <- app_assoc in HL. exact HL.
+      * intros s Hs. apply in_app_iff in Hs as [Hs|Hs]; [apply HP in Hs; lia|].
+        apply (chunk_starts_bound b L ch s Hch) in Hs; lia.
+    + intros Hc. apply Hn. destruct comp; [discriminate|reflexivity].
+    + intros s Hs Hlt'. specialize (HL s Hs). simpl in HL. rewrite !in_app_iff in HL.
+      destruct HL as [K|[[K|K]|K]]; auto.
+      * apply (chunk_starts_bound b L ch s Hch) in K; lia.
+      * apply (parts_starts_bound _ _ _ _ _ _ Hat He) in K. lia.
+      * apply HR in K. lia.
+  - inversion Hrel as [|? dp ? dps' Hr Hrel']; subst. inversion Hwf as [|? ? _ Hwf']; subst.
+    destruct dp as [|d']; simpl in Hr; [contradiction|]. subst d'.
+    simpl in Hat. destruct Hat as [-> [_ [Hs [Hle Hat]]]].
+    cbn [check_parts]. simpl parts_starts.
+    apply (IH P dps' (pos + length d) e); auto.
+    intros s Hs'. apply HP in Hs'. lia.
+Qed.
+
+Definition rr_wfL (r : lrr) : Prop := wf_name (nc_name (lr_owner r)) /\ Forall part_wf (lr_parts r).
+
+Lemma rr_wfL_of r a : rrd r a -> arr_wf a -> rr_wfL r.
+Proof.
+  intros [D1 [D2 [D3 [D4 [D5 [D6 [D7 [D8 D9]]]]]]]] [W1 [W2 [W3 [W4 [W5 [W6 W7]]]]]]. split.
+  - rewrite D1. exact W1.
+  - eapply parts_wf_of; [exact D6|]. apply rd_parts_wf. exact W7.
+Qed.
+
+Definition rlink (r : lrr) (d : drr) : Prop :=
+  dr_pos d = nc_pos (lr_owner r) /\ Forall2 lpart_rel (lr_parts r) (dr_parts d).
+
+Lemma check_rrs_ok b L : forall rs ds es (P R : list nat) pos e, rrs_at b L rs pos e -> e <= length b ->
+  Forall2 rlink rs ds -> Forall rr_wfL rs -> Forall (fun a => a_nocomp a = false) es -> length es = length ds ->
+  (forall s, L s -> In s (P ++ rrs_starts rs ++ R)) -> (forall s, In s P -> s < pos) ->
+  (forall s, In s R -> e <= s) ->
+  check_rrs b P es ds = Ok (P ++ rrs_starts rs).
+Proof.
+  induction rs as [|r rest IH]; intros ds es P R pos e Hat He Hlk Hwf Hes Hlen HL HP HR.
+  - inversion Hlk; subst. destruct es; simpl; rewrite app_nil_r; reflexivity.
+  - inversion Hlk as [|? d ? ds' [Lp Lparts] Hlk']; subst. inversion Hwf as [|? ? [W1 W2] Hwf']; subst.
+    destruct es as [|a es']; [simpl in Hlen; discriminate|]. inversion Hes as [|? ? Ha Hes']; subst.
+    simpl in Hat. destruct Hat as [Hp [Hr [Hle Hat]]]. pose proof Hr as [Ho [Hf [Hle2 Hparts]]].
+    pose proof (proj1 Ho) as Hlt. pose proof (rrs_le _ _ _ _ _ Hat) as Hre.
+    cbn [check_rrs]. rewrite Ha, Lp.
+    rewrite (check_name_ok b L (lr_owner r) false P Ho W1 ltac:(lia)); [|discriminate|].
+    2:{ intros s Hs Hlt'. specialize (HL s Hs). rewrite !in_app_iff in HL. destruct HL as [K|[K|K]]; auto.
+        - apply (rrs_starts_bound b L (r :: rest) pos e s) in K; [lia| |lia].
+          simpl. split; auto.
+        - apply HR in K. lia. }
+    cbn [bind].
+    rewrite (check_parts_ok b L (P ++ chunk_starts (lr_owner r)) (rrs_starts rest ++ R) (lr_parts r) (dr_parts d)
+               (nc_end (lr_owner r) + 10) (lr_end r)); auto; try lia.
+    + cbn [bind].
+      assert (Eq : P ++ rrs_starts (r :: rest) =
+                   ((P ++ chunk_starts (lr_owner r)) ++ parts_starts (lr_parts r)) ++ rrs_starts rest).
+      { unfold rrs_starts. simpl. unfold rr_starts. rewrite <- !app_assoc. reflexivity. }
+      rewrite Eq.
+      apply (IH ds' es' ((P ++ chunk_starts (lr_owner r)) ++ parts_starts (lr_parts r)) R (lr_end r) e); auto.
+      * intros s Hs. specialize (HL s Hs). unfold rrs_starts in HL. simpl in HL. unfold rr_starts in HL.
+        rewrite !in_app_iff in *. tauto.
+      * intros s Hs. rewrite !in_app_iff in Hs. destruct Hs as [[Hs|Hs]|Hs].
+        -- apply HP in Hs. lia.
+        -- apply (chunk_starts_bound b L _ s Ho) in Hs; lia.
+        -- apply (parts_starts_bound _ _ _ _ _ _ Hparts) in Hs; lia.
+    + intros s Hs. specialize (HL s Hs). unfold rrs_starts in HL. simpl in HL. unfold rr_starts in HL.
+      rewrite !in_app_iff in *. tauto.
+    + intros s Hs. rewrite in_app_iff in Hs. destruct Hs as [Hs|Hs]; [apply HP in Hs; lia|].
+      apply (chunk_starts_bound b L _ s Ho) in Hs; lia.
+    + intros s Hs. rewrite in_app_iff in Hs. destruct Hs as [Hs|Hs].
+      * apply (rrs_starts_bound _ _ _ _ _ _ Hat He) in Hs. lia.
+      * apply HR in Hs. lia.
+Qed.
+
+Lemma check_qs_ok b L : forall qs ds es (P R : list nat) pos e, qs_at b L qs pos e -> e <= length b ->
+  Forall2 (fun q d => dq_pos d = nc_pos (lq_name q)) qs ds -> Forall (fun q => wf_name (nc_name (lq_name q))) qs ->
+  Forall (fun a => a_nocomp a = false) es -> length es = length ds ->
+  (forall s, L s -> In s (P ++ qs_starts qs ++ R)) -> (forall s, In s P -> s < pos) ->
+  (forall s, In s R -> e <= s) ->
+  check_qs b P es ds = Ok (P ++ qs_starts qs).
+Proof.
+  induction qs as [|q rest IH]; intros ds es P R pos e Hat He Hlk Hwf Hes Hlen HL HP HR.
+  - inversion Hlk; subst. destruct es; simpl; rewrite app_nil_r; reflexivity.
+  - inversion Hlk as [|? d ? ds' Lp Hlk']; subst. inversion Hwf as [|? ? W1 Hwf']; subst.
+    destruct es as [|a es']; [simpl in Hlen; discriminate|]. inversion Hes as [|? ? Ha Hes']; subst.
+    simpl in Hat. destruct Hat as [Hp [[Ho Hf] [Hle Hat]]].
+    pose proof (proj1 Ho) as Hlt. pose proof (qs_le _ _ _ _ _ Hat) as Hre.
+    cbn [check_qs]. rewrite Ha, Lp.
+    rewrite (check_name_ok b L (lq_name q) false P Ho W1 ltac:(lia)); [|discriminate|].
+    2:{ intros s Hs Hlt'. specialize (HL s Hs). rewrite !in_app_iff in HL. destruct HL as [K|[K|K]]; auto.
+        - apply (qs_starts_bound b L (q :: rest) pos e s) in K; [lia| |lia].
+          simpl. split; auto. split; [split; auto|auto].
+        - apply HR in K. lia. }
+    cbn [bind].
+    assert (Eq : P ++ qs_starts (q :: rest) = (P ++ chunk_starts (lq_name q)) ++ qs_starts rest).
+    { unfold qs_starts. simpl. rewrite <- !app_assoc. reflexivity. }
+    rewrite Eq.
+    apply (IH ds' es' (P ++ chunk_starts (lq_name q)) R (nc_end (lq_name q) + 4) e); auto.
+    + intros s Hs. specialize (HL s Hs). unfold qs_starts in HL. simpl in HL.
+      rewrite !in_app_iff in *. tauto.
+    + intros s Hs. rewrite in_app_iff in Hs. destruct Hs as [Hs|Hs]; [apply HP in Hs; lia|].
+      apply (chunk_starts_bound b L _ s Ho) in Hs; lia.
 Qed.
